@@ -274,6 +274,7 @@ func (m *Model) buildPubs() {
 			}
 		}
 	}
+	m.buildWills()
 	// A sender must release QoS 2 exchanges in the order of its PUBLISHes
 	// (MQTT-4.6.0-3).  Where a script does not, nothing is demanded of the
 	// QoS 2 exchanges of that connection (hand-overs stay permitted).
@@ -488,5 +489,63 @@ func (m *Model) buildDeliveries() {
 			d.Intact = true
 		}
 		m.Deliv = append(m.Deliv, d)
+	}
+}
+
+// EndCause classifies how an accepted connection ended.
+func (m *Model) EndCause(c *Conn) string {
+	// a complete DISCONNECT packet on the wire is a normal end
+	for _, w := range c.Up {
+		if w.P.Type == refmqtt.DISCONNECT {
+			return "disconnect"
+		}
+	}
+	if c.ClientEnded {
+		return c.EndKind // fin, rst, final
+	}
+	if c.Dead {
+		return "broker-closed"
+	}
+	return "open"
+}
+
+// buildWills adds the will of every accepted connection that ended without a
+// DISCONNECT packet as a publish the broker must make.
+func (m *Model) buildWills() {
+	h := m.H
+	for _, c := range h.Conns {
+		if !accepted(c) || len(c.Up) == 0 || c.Up[0].P.Type != refmqtt.CONNECT || !c.Up[0].P.WillFlag {
+			continue
+		}
+		cp := c.Up[0].P
+		cause := m.EndCause(c)
+		if cause == "disconnect" || cause == "open" {
+			continue
+		}
+		if h.ServerCloseCall > 0 && (c.EndStamp == 0 || c.EndStamp > h.ServerCloseCall) && !(c.Dead && c.DeadStamp < h.ServerCloseCall) {
+			// ended by Server.Close: not judged here
+			continue
+		}
+		lo := c.EndStamp
+		if !c.ClientEnded {
+			lo = c.OpenStamp
+		}
+		from := lo
+		if c.Dead && c.DeadStamp > from {
+			from = c.DeadStamp
+		}
+		hi := m.nextQuiescence(from)
+		if hi == inf {
+			hi = h.FinalStamp
+		}
+		src, seq, ok := identify(cp.WillMessage)
+		key := keyOf(src, seq)
+		if len(cp.WillMessage) == 0 {
+			key = "empty:" + cp.WillTopic
+			src, seq = srcWill+c.Client, c.Idx
+		} else if !ok {
+			continue
+		}
+		m.Pubs = append(m.Pubs, &Pub{Key: key, Src: src, Seq: seq, Topic: cp.WillTopic, QoS: cp.WillQoS, Retain: cp.WillRetain, Payload: cp.WillMessage, C: c, Lo: lo, Hi: hi, Certain: true, Will: true})
 	}
 }
